@@ -26,6 +26,7 @@ func init() {
 			{"HND-FIELDS", 60, ruleHndFields},
 			{"PAR-RESIZE", 5, ruleParResize},
 			{"INS-PATCH", 3, ruleInsPatch},
+			{"PAR-GLOBALIDX", 3, ruleParGlobalIdx},
 		},
 	})
 	register(&propDef{
@@ -38,6 +39,7 @@ func init() {
 			{"FRM-VARIADIC", 4, ruleFrmVariadic},
 			{"LAY-FUNC", 8, ruleLayFunc},
 			{"FRM-METHOD", 3, ruleFrmMethod},
+			{"FRM-REDEFINE", 3, ruleFrmRedefine},
 			{"REP-TYPEDSTORE", 9, ruleRepTypedStore},
 			{"JOINSPLIT", 100, ruleJoinSplit},
 		},
@@ -600,24 +602,6 @@ func ruleFrmPair(c *Ctx, r *R) {
 	base := linOf(litField(frameLit, "BaseN"))
 	r.check(base.String() == "<+L -args>", "BaseN", pos, "BaseN = len(stack) - args at entry",
 		"the callee's BaseN is "+base.String()+", not len(stack)-args taken before the locals are appended: parameters and locals are addressed in the wrong slots")
-	// stack length when exec starts = L + slots - args, i.e. BaseN + slots
-	var atExec *linForm
-	for _, e := range p.Eff {
-		if e.Kind == "call" && e.Value.Name == "VM.exec" {
-			break
-		}
-		if e.Kind == "stack" {
-			s := e.Value.Name
-			if i := strings.Index(s, "len="); i >= 0 {
-				j := strings.Index(s, " via")
-				if j > i {
-					atExec = nil
-					_ = j
-				}
-			}
-		}
-	}
-	_ = atExec
 	// the splice after exec: append(v.stack[:BaseN], v.stack[topN:]...)
 	splice := ""
 	for i, s := range ev {
@@ -626,8 +610,6 @@ func ruleFrmPair(c *Ctx, r *R) {
 			break
 		}
 	}
-	want := "stack len=<-args +slots -topN... "
-	_ = want
 	okSplice := false
 	if splice != "" {
 		// len after splice = BaseN + (L1 - topN) with BaseN = L-args and topN = L-args+slots  =>  L1 - slots
